@@ -32,6 +32,8 @@ def setup(G):
         "mala": lambda tr: mala(tr, G.sel("x"), 0.3),
         "mh;mh": lambda tr: mh(mh(tr, G.sel("x")), G.sel("y")),
         "mh;hmc": lambda tr: hmc(mh(tr, G.sel("y")), G.sel("x"), 0.1, 3),
+        # a kernel that REPEATS its sub-move with lax.scan: every save(accept=...) sits inside the nested scan, none at the kernel's top level
+        "mh-loop3": lambda tr: __import__("jax").lax.scan(lambda c, _: (mh(c, G.sel("x")), None), tr, None, length=3)[0],
     }
     return model, kernels, chain
 
@@ -83,13 +85,22 @@ def check_case(G, ctx, model, kernels, chain, kname, n, b, k, c, key_int, full_c
         ctx.property_failure(None, f"n_steps={int(res.n_steps.value)} but {want_n} states are retained", case)
     if ra.size and abs(float(res.acceptance_rate) - float(np.mean(ra.astype(np.float64)))) > 1e-6:
         ctx.property_failure(None, f"acceptance_rate {float(res.acceptance_rate)} != mean of accepts {float(np.mean(ra))}", case)
+    if c == 1 and kname in ("mh", "mh-loop3"):
+        # ABSOLUTE meaning of the flags (not only their alignment): an mh move on the continuous choice x was accepted iff x changed
+        xs = np.asarray(full.traces.get_choices()["x"], dtype=np.float64)
+        prev = np.concatenate([[float(tr.get_choices()["x"])], xs[:-1]])
+        moved = xs != prev
+        flags = fa.reshape(len(xs), -1).astype(bool).any(axis=1) if fa.size else np.zeros(len(xs), bool)
+        if fa.shape[0] != len(xs) or not np.array_equal(moved, flags):
+            ctx.property_failure(None, f"accepts do not say which steps moved the state: moved {moved.astype(int).tolist()}, accept flags {np.asarray(fa).astype(float).tolist()} "
+                                 "(the kernel's save(accept=...) values were lost)", {**case, "moved": moved.astype(int).tolist()})
     if c > 1:
         x = np.asarray(res.traces.get_choices()["x"])
         if x.shape[0] != c:
             ctx.property_failure(None, "multi-chain result lacks the leading chain axis", case)
         elif x.shape[1] > 2 and any(np.array_equal(x[0], x[j]) for j in range(1, c)):
             ctx.property_failure(None, "two chains produced identical states (shared randomness)", case)
-    if c == 1:
+    if c == 1 and kname != "mh-loop3":      # (the looped kernel returns one flag per sub-move: the model's flags are per step)
         # Lean model on the recorded un-thinned run: states are identified by their index
         acc = [bool(a) for a in fa]
         line = sexp.dumps(["chain", n, b, k, ["T" if a else "F" for a in acc]])
@@ -101,7 +112,8 @@ def check_case(G, ctx, model, kernels, chain, kname, n, b, k, c, key_int, full_c
         if len(m_idx) != len(xs_res) or any(xs_full[i] != xs_res[j] for j, i in enumerate(m_idx)) or m_acc != [bool(a) for a in ra] or int(r[3]) != int(res.n_steps.value):
             case["model"] = r
             ctx.correspondence_break("Chain.chain vs chain()", f"model indices {m_idx} accepts {m_acc}", case)
-    model_runchain(ctx, full, res, fa, ra, n, b, k, c, case)
+    if kname != "mh-loop3":
+        model_runchain(ctx, full, res, fa, ra, n, b, k, c, case)
     ctx.case(sample=case if ctx.coverage["evaluations"] % 37 == 0 else None,
              nontrivial_key=(kname, n, b, k, c) if (b > 0 or k > 1) else None)
     ctx.count(f"{kname}:chains={c}")
@@ -188,14 +200,14 @@ def run(ctx, audit):
     rng = ctx.rng
     nmax = 14 if ctx.thorough else 9
     shards = []
-    for kname in ("mh", "mala", "mh;mh", "mh;hmc"):
+    for kname in ("mh", "mala", "mh;mh", "mh;hmc", "mh-loop3"):
         grid = []
         for n in ([1, 2, 5, nmax] if not ctx.thorough else [1, 2, 3, 5, 8, 11, nmax]):
             for b in sorted({0, 1, n // 2, n - 1} & set(range(n))):
                 for k in (1, 2, 3, 4):
                     grid.append((n, b, k))
         rng.shuffle(grid)
-        grid = grid[: (70 if ctx.thorough else 14)]
+        grid = grid[: ((70 if ctx.thorough else 14) if kname != "mh-loop3" else 6)]
         multi = [(6, 2, 2, 3), (7, 1, 3, 3)] if kname in ("mh", "mala") else [(5, 1, 2, 2)] if kname == "mh;mh" else []
         half = len(grid) // 2
         shards.append((kname, grid[:half], multi[:1], 4 if kname != "mh;mh" else 0))
